@@ -328,7 +328,128 @@ def _midstates(ctx, want, keyp):
 # BIP341
 
 
+def _bip341_cells(ctx):
+    if not hasattr(ctx, "_c05_bip341"):
+        ctx._c05_bip341 = _bip341_cells_(ctx)
+    return ctx._c05_bip341
+
+
+def _bip341_cells_(ctx):
+    """Tx.sig_hash_bip341 (with sha_prevouts / sha_amounts / sha_script_pubkeys / sha_sequences / sha_outputs) evaluated on a transaction of
+    three inputs and three outputs whose every field has different bytes, for hash types {0, 1, 2, 3, 0x81, 0x82, 0x83} × annex absent /
+    present × key path / script path × input 0 / 2, against the rule's own BIP341 SigMsg.  Inputs, outputs, timelocks and scripts are stand-ins
+    with fixed serialisations (their codecs are other clauses); the tapleaf hash is a fixed value (which witness item is the leaf: C05.20);
+    hashing is the standard library's.  Complete in the control parameters BIP341 distinguishes; bounded in the field bytes (one transaction)"""
+    import hashlib
+    from sa.cells import Evaluator, Obj, Raised, Undecided
+    spec = "tx:Tx.sig_hash_bip341"
+    mod, fn = rl.get(ctx, spec)
+    sha = lambda b: hashlib.sha256(b).digest()
+    tag = sha(b"TapSighash")
+    vs = lambda b: bytes([len(b)]) + b
+    LEAF = bytes(range(200, 232))
+    seen = {}
+
+    def tapsighash(m):
+        seen["pre"] = bytes(m)
+        return sha(tag + tag + bytes(m))
+    prevs = [bytes((40 * i + j) & 255 for j in range(32)) for i in range(1, 4)]
+    idxs, amounts, seqs = [5, 0, 258], [1000, 70000000000, 3], [0xFFFFFFFE, 7, 0xFFFFFFFF]
+    spks = [b"\x51\x20" + bytes([0x10 * (i + 1)]) * 32 for i in range(3)]
+    outs = [(21 + i, b"\x00\x14" + bytes([0xA0 + i]) * 20) for i in range(3)]
+    out_ser = [a.to_bytes(8, "little") + vs(sp) for a, sp in outs]
+    version, locktime = 2, 500001
+
+    def ref(idx, ht, annex, ext):
+        m = b"\x00" + bytes([ht]) + version.to_bytes(4, "little") + locktime.to_bytes(4, "little")
+        if not ht & 0x80:
+            m += sha(b"".join(prevs[i][::-1] + idxs[i].to_bytes(4, "little") for i in range(3)))
+            m += sha(b"".join(a.to_bytes(8, "little") for a in amounts))
+            m += sha(b"".join(vs(sp) for sp in spks))
+            m += sha(b"".join(q.to_bytes(4, "little") for q in seqs))
+        if ht & 3 not in (2, 3):
+            m += sha(b"".join(out_ser))
+        m += bytes([2 * ext + (1 if annex else 0)])
+        if ht & 0x80:
+            m += prevs[idx][::-1] + idxs[idx].to_bytes(4, "little") + amounts[idx].to_bytes(8, "little") + vs(spks[idx]) + seqs[idx].to_bytes(4, "little")
+        else:
+            m += idx.to_bytes(4, "little")
+        if annex:
+            m += sha(vs(annex))
+        if ht & 3 == 3:
+            m += sha(out_ser[idx])
+        if ext:
+            m += LEAF + b"\x00\xff\xff\xff\xff"
+        return m
+    hooks = {("TxIn", "value"): lambda o, *a, **k: o.attrs["amount_"], ("TxIn", "script_pubkey"): lambda o, *a, **k: o.attrs["spk_"],
+             ("Witness", "tap_leaf"): lambda o, *a, **k: Obj("taproot", "TapLeaf", {}), ("TapLeaf", "hash"): lambda o, *a, **k: LEAF,
+             ("TxOut", "serialize"): lambda o, *a, **k: o.attrs["ser_"]}
+    for cls in ("Script", "ScriptPubKey", "P2TRScriptPubKey", "SegwitPubKey"):
+        hooks[(cls, "serialize")] = lambda o, *a, **k: vs(o.attrs["raw_"])
+        hooks[(cls, "raw_serialize")] = lambda o, *a, **k: o.attrs["raw_"]
+    for cls in ("Locktime", "Sequence"):
+        hooks[(cls, "serialize")] = lambda o, *a, **k: o.attrs["n_"].to_bytes(4, "little")
+    n = 0
+    ANNEX = b"\x50\x01\x02\x03"
+    try:
+        for ht in (0, 1, 2, 3, 0x81, 0x82, 0x83):
+            for annex in (None, ANNEX):
+                for ext in (0, 1):
+                    for idx in (0, 2):
+                        n += 1
+                        ins = []
+                        for i in range(3):
+                            items = [b"\x30" * 64] if not ext else [b"\x30" * 64, b"\x20" + bytes(32) + b"\xac", b"\xc0" + bytes(32)]
+                            if annex and i == idx:
+                                items = items + [annex]
+                            ins.append(Obj("tx", "TxIn", {"prev_tx": prevs[i], "prev_index": idxs[i], "sequence": Obj("timelock", "Sequence", {"n_": seqs[i]}),
+                                                          "witness": Obj("witness", "Witness", {"items": items}), "amount_": amounts[i],
+                                                          "spk_": Obj("script", "P2TRScriptPubKey", {"raw_": spks[i]}), "script_sig": Obj("script", "Script", {"commands": []})}))
+                        touts = [Obj("tx", "TxOut", {"amount": a, "script_pubkey": Obj("script", "Script", {"raw_": sp}), "ser_": out_ser[i]}) for i, (a, sp) in enumerate(outs)]
+                        me = Obj("tx", "Tx", {"version": version, "tx_ins": ins, "tx_outs": touts, "locktime": Obj("timelock", "Locktime", {"n_": locktime}),
+                                              "network": "mainnet", "segwit": True})
+                        seen.clear()
+                        where = "hash type %#04x, annex %s, %s path, input %d" % (ht, "present" if annex else "absent", "script" if ext else "key", idx)
+                        try:
+                            got = Evaluator(ctx.repo, method_hooks=hooks, externals={"hash_tapsighash": tapsighash}, max_steps=400000).call(
+                                spec, [idx], kwargs={"ext_flag": ext, "hash_type": ht}, self_obj=me)
+                        except Raised as x:
+                            ctx.count("cells", n)
+                            return [ctx.bad(spec, "%s: the digest function raises %s" % (where, x.name), fn, mod, key="bip341-cells")]
+                        want = ref(idx, ht, annex, ext)
+                        if got != sha(tag + tag + want):
+                            pre = seen.get("pre")
+                            at = ""
+                            if isinstance(pre, bytes):
+                                i = next((i for i in range(min(len(pre), len(want))) if pre[i] != want[i]), min(len(pre), len(want)))
+                                at = ": the message differs from BIP341's SigMsg at byte %d (%d bytes written, %d expected)" % (i, len(pre), len(want))
+                            ctx.count("cells", n)
+                            return [ctx.bad(spec, "%s: the digest is not the BIP341 signature hash%s" % (where, at), fn, mod, key="bip341-cells")]
+    except Undecided as u:
+        return [ctx.err(spec, "BIP341 digest not evaluable: %s" % u, fn, mod)]
+    ctx.count("cells", n)
+    return [ctx.ok(spec, "%d cells (hash type × annex × key / script path × input): the digest equals the tagged hash of the rule's own BIP341 SigMsg" % n, fn, mod, key="bip341-cells")]
+
+
+def c05_23(ctx):
+    """CELLS BIP341 digest: the whole function over the control parameters"""
+    return _bip341_cells(ctx)
+
+
 def c05_4(ctx):
+    """BIP341 message layout: symbolic execution of the writer against the specification's layout for every (hash type, annex, ext_flag); when
+    the writer is not in a form the layout executor reads, the BIP341 cells (C05.23) decide"""
+    spec = "tx:Tx.sig_hash_bip341"
+    try:
+        out = _c05_4_struct(ctx)
+    except AnalysisError as e:
+        mod, fn = rl.get(ctx, spec)
+        out = [ctx.err(spec, str(e), fn, mod)]
+    return rl.defer(ctx, out, lambda: _bip341_cells(ctx), "decided by the BIP341 cells (C05.23: hash type × annex × key / script path × input, digest equals the rule's own SigMsg); "
+                    "the writer is not in the form the layout executor reads")
+
+
+def _c05_4_struct(ctx):
     out = []
     spec = "tx:Tx.sig_hash_bip341"
     annex_key = "self.tx_ins[input_index].witness.has_annex()"
@@ -399,6 +520,19 @@ def c05_4(ctx):
 
 
 def c05_5(ctx):
+    """sig_hash dispatch table: script class -> algorithm (symbolic reading of the predicates); when the dispatch is not in a form it reads, the
+    dispatch cells (C05.19, C05.11) decide"""
+    spec = "tx:Tx.sig_hash"
+    try:
+        out = _c05_5_struct(ctx)
+    except AnalysisError as e:
+        mod, fn = rl.get(ctx, spec)
+        out = [ctx.err(spec, str(e), fn, mod)]
+    return rl.defer(ctx, out, lambda: c05_19(ctx) + c05_11(ctx), "decided by the dispatch cells (C05.19: spent output type × hash type × index, incl. the nested segwit forms; C05.11: "
+                    "extension flag); the dispatch is not in the form the table rule reads")
+
+
+def _c05_5_struct(ctx):
     """sig_hash dispatch table: script class -> algorithm"""
     spec = "tx:Tx.sig_hash"
     mod, fn = rl.get(ctx, spec)
@@ -590,7 +724,13 @@ def c05_7(ctx):
 
 
 def c05_9(ctx):
-    """annex predicate: spend_type bit and sha_annex use the same predicate call"""
+    """annex predicate: spend_type bit and sha_annex use the same predicate call (DATAFLOW); in another form the BIP341 cells (C05.23: annex
+    absent / present for every hash type) decide"""
+    return rl.defer(ctx, _c05_9_struct(ctx), lambda: _bip341_cells(ctx), "decided by the BIP341 cells (C05.23: with and without annex the spend type and sha_annex of the digest are BIP341's); "
+                    "the annex tests are not in the form the dataflow rule reads")
+
+
+def _c05_9_struct(ctx):
     spec = "tx:Tx.sig_hash_bip341"
     mod, fn = rl.get(ctx, spec)
     cfg = cfg_of(fn)
@@ -750,7 +890,8 @@ def c05_19(ctx):
     mod, fn = rl.get(ctx, spec)
     h20, h32 = bytes([7]) * 20, bytes([9]) * 32
     kinds = {"p2pkh": ("P2PKHScriptPubKey", [0x76, 0xA9, h20, 0x88, 0xAC], "legacy"), "p2sh": ("P2SHScriptPubKey", [0xA9, h20, 0x87], "legacy"),
-             "p2wpkh": ("P2WPKHScriptPubKey", [0, h20], "bip143"), "p2wsh": ("P2WSHScriptPubKey", [0, h32], "bip143"), "p2tr": ("P2TRScriptPubKey", [0x51, h32], "bip341")}
+             "p2wpkh": ("P2WPKHScriptPubKey", [0, h20], "bip143"), "p2wsh": ("P2WSHScriptPubKey", [0, h32], "bip143"), "p2tr": ("P2TRScriptPubKey", [0x51, h32], "bip341"),
+             "p2sh-p2wpkh": ("P2SHScriptPubKey", [0xA9, h20, 0x87], "bip143"), "p2sh-p2wsh": ("P2SHScriptPubKey", [0xA9, h20, 0x87], "bip143")}
     hooks_base = {("Tx", "sig_hash_bip341"): lambda o, *a, **k: ("bip341",), ("Tx", "sig_hash_bip143"): lambda o, *a, **k: ("bip143",),
                   ("Tx", "sig_hash_legacy"): lambda o, *a, **k: ("legacy",)}
     cells = 0
@@ -761,8 +902,8 @@ def c05_19(ctx):
                 for idx in (0, 1, 2):
                     cells += 1
                     wit = Obj("witness", "Witness", {"items": [b"\x30" * 64] if kind == "p2tr" else ([b"\x30" * 71, b"\x02" * 33] if want == "bip143" else [])})
-                    red = Obj("script", "RedeemScript", {"commands": [0x51, b"\x02" * 33, 0x51, 0xAE]})
-                    ins = [Obj("tx", "TxIn", {"witness": wit, "script_sig": Obj("script", "Script", {"commands": [b"\x30" * 71, b"|".join([b"r"])] if kind == "p2sh" else []})})
+                    red = Obj("script", "RedeemScript", {"commands": [0, h20] if kind == "p2sh-p2wpkh" else [0, h32] if kind == "p2sh-p2wsh" else [0x51, b"\x02" * 33, 0x51, 0xAE]})
+                    ins = [Obj("tx", "TxIn", {"witness": wit, "script_sig": Obj("script", "Script", {"commands": [b"\x30" * 71, b"|".join([b"r"])] if kind.startswith("p2sh") else []})})
                            for _ in range(3)]
                     me = Obj("tx", "Tx", {"tx_ins": ins, "tx_outs": [Obj("tx", "TxOut", {"amount": 1})], "network": "testnet", "segwit": True, "version": 2, "locktime": 0})
                     hooks = dict(hooks_base)
@@ -855,6 +996,7 @@ def c05_22(ctx):
 
 OBLIGATIONS = [
     ("C05.22", "CELLS leaf bytes (shared C12.22)", c05_22),
+    ("C05.23", "CELLS BIP341 digest", c05_23),
     ("C05.21", "DIGEST-SOURCE", c05_21),
     ("C05.20", "CELLS annex index (shared C12.10)", c05_20),
     ("C05.18", "OWNERSHIP (shared C06.13)", c05_18),
